@@ -149,7 +149,8 @@ DEVS = [("FF_Gsmall", "unsorted", "C01_Inv", "m01: residues not sorted by residu
         ("FF_S", "f30", "C01_Inv", "F30 (repaired cca8623): block interactions with equal (section, atoms, version) collapse"),
         ("FF_X5", "f32", "C01_Inv", "F32 (repaired): block-copy correspondences looked up by fragment number"),
         ("FF_Msmall", "versioninkey", "C01_Inv", "removed-node-key-equals-version (repaired): write-back tests the version number as an atom"),
-        ("FF_Msmall", "modanyres", "C01_Inv", "a modification touching another residue")]
+        ("FF_Msmall", "modanyres", "C01_Inv", "a modification touching another residue"),
+        ("FF_Msmall", "modanyname", "C01_Inv", "seed-C01-2: a modification applied to a residue that is not a protein residue")]
 REACH = [("FF_X4", "Reach_Frag2"), ("FF_Msmall", "Reach_Removed"), ("FF_Msmall", "Reach_Mod")]
 
 
